@@ -92,6 +92,16 @@ def gen_specs(run):
             specs.append({"id": f"c14-{sid}", "group": "fm", "members": [base] + [v_[1] for v_ in variants], "verifies": [{"mode": "VerifyOnly", "vmembers": [gen.vmember(base, 0)], "log": False}],
                           "_tags": [v_[0] for v_ in variants], "_conf": [b, m, T, seeded, fault["kind"]], "with_gens": False})
             sid += 1
+    # statements that differ ONLY in the value generator H as a point (public field written after construction, cached encoding left stale) over
+    # zero-value commitments: commitments, witness, context and external bytes are equal, the public input H is not; the nonces must differ
+    for (b, m, T) in [(2, 1, 1), (4, 2, 2), (1, 1, 3)]:
+        for fault in FAULTS[:3]:
+            base = gen.mk_member(rng, b, m, cap=m, T=T, seed=False, rngspec=fault, vkinds=["zero"] * m, pkinds=["none"] * m)
+            x = copy.deepcopy(base)
+            x["hp_scale"] = gen.hx(gen.rscalar(rng))
+            specs.append({"id": f"c14-{sid}", "group": "fm", "members": [base, x], "verifies": [], "_tags": ["statement (value generator H replaced as a point, zero-value commitments)"],
+                          "_conf": [b, m, T, False, fault["kind"]], "with_gens": False})
+            sid += 1
     # non-degenerate runs for the model correspondence (RNG operations and their position among the appends)
     for (b, m, T) in confs[:6]:
         for fault in FAULTS[:3]:
